@@ -311,7 +311,9 @@ def _d2_many(vc):
         vc.emit('suspend', site)
 
     def local_lists(loc):
-        return [v for k, v in loc.items() if type(v) is list and not k.startswith('__')]
+        # the function's own result lists (a snapshot of the mapping kept in a local is not one of them)
+        return [v for k, v in loc.items() if type(v) is list and not k.startswith('__')
+                and not any(isinstance(x, _Marker) for x in v)]
 
     def havoc(loc):
         g.lists = local_lists(loc)
@@ -599,8 +601,10 @@ def D1(vc):
       wraps_by_kind      daemons run in _daemon, timers in _timer, exactly once, with the handler and cause given;
       forever_stopped_iff_self_exit  handler.id is added to memory.forever_stopped iff no stop reason was ever
                          given when the wrapped call ended (any way: return, exception, cancellation);
-      removal_last       the own entry is deleted exactly once, after the wrapped call has ended; after the deletion
-                         there is no suspension point and no other mutation of the memory (only the DONE flag);
+      removal_last       the own entry is deleted exactly once, after the wrapped call has ended, and the whole epilogue
+                         (forever_stopped bookkeeping, deletion, DONE flag) is one atomic segment that ends the runner:
+                         no suspension point after the wrapped call (nobody sees the entry gone while the runner lives,
+                         or a self-exited daemon missing in forever_stopped);
       done_flag          the stopper carries DONE at the end;  propagates: exceptions/cancellation are not swallowed.
     """
     if vc.nondet(2, 'spawn_daemons | _runner') == 0:
@@ -702,7 +706,8 @@ def _d1_runner(vc):
     settings = Opaque('settings')
     h = mk_handler(vc, 'd', sym=False)
     stopper = SymStopper(vc, clock, 'stopper', fresh=True)
-    cause = Opaque('daemon-cause', stopper=stopper)
+    cause = Opaque('daemon-cause', stopper=stopper, logger=NullLogger(), resource=Opaque('resource'), body=Opaque('body'),
+                   patch=Opaque('patch'), memo=Opaque('memo'), indices=Opaque('indices'))
     task = SymTask(vc, clock, 'own-task', done=False)
     me = daemons.Daemon(task=task, logger=NullLogger(), handler=h, stopper=stopper)
     other = Opaque('another-daemon')
@@ -740,12 +745,18 @@ def _d1_runner(vc):
     def havoc(loc):
         return {k: vc.bool('can-free') for k, v in loc.items() if v is True and not k.startswith('__')}
 
-    ld = vc.load('kopf._core.engines.daemons', '_runner', stubs={'_daemon': guarded('_daemon'), '_timer': guarded('_timer')},
+    async def sleep(*a, **kw):
+        await suspend('asyncio.sleep')
+
+    ld = vc.load('kopf._core.engines.daemons', '_runner',
+                 stubs={'_daemon': guarded('_daemon'), '_timer': guarded('_timer'), 'asyncio.sleep': sleep},
                  loops={1: LoopSpec('for running_daemon in', havoc=havoc, element=element)})
     escaped = None
     try:
         vc.drive(ld.fn(settings=settings, daemons=running, handler=h, memory=memory, cause=cause), on_suspend)
-    except (asyncio.CancelledError, ValueError) as e:
+    except BaseException as e:
+        if isinstance(e, (PathEnd, Unsupported)):
+            raise
         escaped = e
     tr = vc.trace
     names = [e[0] for e in tr]
@@ -760,7 +771,7 @@ def _d1_runner(vc):
               (g.outcome != 'cancelled' or isinstance(escaped, asyncio.CancelledError)) and
               (g.outcome != 'error' or isinstance(escaped, ValueError)))
     # -- forever_stopped
-    self_exit = Not(Or(*g.flags_at_end.values()))
+    self_exit = Not(Or(*(g.flags_at_end or stopper.flags).values()))
     vc.ensure('forever_stopped_iff_self_exit', Iff('d' in forever, Or(had, self_exit)))
     vc.ensure('forever_stopped_iff_self_exit', set(forever) - {'d'} == {'other'})
     vc.canary('canary.never_forever_stopped', 'd' not in forever)
@@ -768,10 +779,9 @@ def _d1_runner(vc):
     dels = [i for i, n in enumerate(names) if n == 'daemons.del']
     vc.ensure('removal_last', len(dels) == 1 and not running.present and 'daemons.set' not in names)
     if len(dels) == 1:
-        i = dels[0]
-        vc.ensure('removal_last', 'guarded.end' in names[:i])
-        after = tr[i + 1:]
-        vc.ensure('removal_last', all(e[0] == 'stopper.set' and e[1] is stopper and e[2] is SR.DONE for e in after))
+        vc.ensure('removal_last', 'guarded.end' in names[:dels[0]])
+    if 'guarded.end' in names:      # from the end of the wrapped call to the end of the runner: one atomic segment
+        vc.ensure('removal_last', 'suspend' not in names[names.index('guarded.end'):])
     vc.ensure('done_flag', stopper.is_set(SR.DONE))
     return ('runner', g.outcome, 'd' in forever)
 
@@ -781,7 +791,8 @@ def _d1_runner(vc):
                         'kopf._core.engines.daemons.daemon_killer'], props=['C09', 'C13', 'C20'],
          clauses=['match.stops_exactly_mismatching', 'match.reason', 'match.delays',
                   'pause.iff_paused', 'pause.reason_all', 'pause.delays',
-                  'killer.pause_stops_all', 'killer.pause_only_when_paused', 'killer.exit_stops_all',
+                  'killer.pause_stops_all', 'killer.pause_only_when_paused', 'killer.pause_rounds_while_on',
+                  'killer.exit_stops_all',
                   'killer.waits_before_close', 'killer.crash_free'],
          canaries=['canary.match.stops_all', 'canary.pause.always_stops', 'canary.killer.never_closes'],
          trusted=['daemons.stop_daemons / stop_daemon by contract D2 (here: recorded, suspend, arbitrary delays)',
@@ -800,8 +811,9 @@ def D3(vc):
     pause_daemons:  stop_daemons(all running daemons, OPERATOR_PAUSING) iff operator_paused is given and on;
                     its delays are returned, none otherwise.
     daemon_killer:  (loop contracts: one arbitrary memory, one arbitrary running daemon)
-      killer.pause_stops_all / pause_only_when_paused  while the pause toggle is observed on, every running daemon
-                    of every memory gets stop_daemon(reason=OPERATOR_PAUSING) scheduled, and only then;
+      killer.pause_stops_all / pause_only_when_paused / pause_rounds_while_on  once the pause toggle is on, stopping
+                    rounds are made until it is observed off; in a round every running daemon of every memory gets
+                    stop_daemon(reason=OPERATOR_PAUSING) scheduled; no such stopper is scheduled in any other situation;
       killer.exit_stops_all     when the task is cancelled (operator exit) or fails, every running daemon of every
                     memory gets stop_daemon(reason=OPERATOR_EXITING) scheduled;
       killer.waits_before_close the scheduler is awaited after the last stopper was scheduled and before it is closed;
@@ -895,6 +907,7 @@ class _TimeoutFired(asyncio.CancelledError):
 def _d3_killer(vc):
     g = Ghost(susp=0, thrown=False, paused=vc.bool('paused0'), in_timeout=0, mem=None, memit=None, dit=None,
               calls={})
+    clock = Clock()
     settings = Opaque('settings')
     memdict = LiveDict('memories')
     memories = Opaque('memories')
@@ -984,13 +997,14 @@ def _d3_killer(vc):
             if n == 3:
                 crash_free(g.memit)
             return True
-        return LoopSpec('for memory in', invariant=invariant, element=element, name=anchor)
+        return LoopSpec('for memory in', invariant=invariant, havoc=havoc_shared, element=element, name=anchor)
 
     def daemon_loop(anchor, reason, clause):
         def havoc(loc):
             # summary of the earlier turns of this loop: each of them suspends in scheduler.spawn
             if vc.nondet(2, f'{anchor}: earlier turns (which suspend) happened?') == 1:
                 g.susp += 1
+                havoc_shared()
             return {}
 
         def element(loc, iterable):
@@ -999,7 +1013,8 @@ def _d3_killer(vc):
                 raise Unsupported(f'daemon_killer walks something else than memory.running_daemons: {iterable!r}')
             if vc.nondet(2, 'daemons exhausted?') == 0:
                 return _STOP
-            g.dit = Ghost(mode=mode[0], susp=g.susp, since=len(vc.trace), d=Opaque('daemon'))
+            g.dit = Ghost(mode=mode[0], susp=g.susp, since=len(vc.trace),
+                          d=mk_daemon(vc, clock, kinds=('daemon',), sym=False))
             return g.dit.d
 
         def invariant(loc):
@@ -1014,11 +1029,24 @@ def _d3_killer(vc):
             return True
         return LoopSpec('for daemon in', invariant=invariant, havoc=havoc, element=element, name=anchor)
 
+    def havoc_shared(loc=None):
+        # earlier turns of a loop suspend: the pause toggle may have been flipped by other tasks meanwhile
+        g.paused = vc.bool('paused')
+        return {}
+
+    def outer_invariant(loc):
+        # back edge of the outer loop: the stopping rounds were left -- only with the toggle observed off
+        n = g.calls['outer'] = g.calls.get('outer', 0) + 1
+        if n == 3:
+            seen = [e[1] for e in vc.trace if e[0] == 'is_on']
+            vc.ensure('killer.pause_rounds_while_on', bool(seen) and Not(seen[-1]))
+        return True
+
     ld = vc.load('kopf._core.engines.daemons', 'daemon_killer', stubs={
         'aiotasks.Scheduler': Scheduler, 'stop_daemon': stop_daemon, 'asyncio.timeout': Timeout,
     }, loops={
-        1: LoopSpec('while True'),
-        2: LoopSpec('while operator_paused.is_on()'),
+        1: LoopSpec('while True', invariant=outer_invariant, havoc=havoc_shared),
+        2: LoopSpec('operator_paused.is_on()', havoc=havoc_shared),
         3: mem_loop('pausing: for memory'),
         4: daemon_loop('pausing: for daemon', SR.OPERATOR_PAUSING, 'killer.pause_stops_all'),
         5: mem_loop('exiting: for memory'),
@@ -1092,7 +1120,8 @@ def H7(vc):
     paused = [None, Opaque('operator_paused')][vc.nondet(2, 'operator_paused given?')]
     t_in = clock.now
 
-    def get_handlers(**kw):
+    def get_handlers(*a, **kw):
+        kw.update(zip(('cause', 'excluded'), a))
         vc.emit('get_handlers', kw)
         return selected
     registry = Opaque('registry', _spawning=Opaque('spawning-registry', get_handlers=get_handlers))
